@@ -13,6 +13,7 @@ VERIF = L.VERIF
 CORPUS = os.path.join(VERIF, "corpus", "C02")
 FINDING_SUFFIX = "C02-suffix-collision"
 FINDING_BLANKS = "C02-keyword-blanks"
+FINDING_HIER = "C02-hierarchy-order"
 
 
 def regen(ctx):
@@ -765,6 +766,13 @@ def correspond(ctx):
     started = emission_corpus_start(ctx)       # fresh interpreters run while the rest of the correspondence goes on
     sensitivity_selftest(ctx, dis)
     text_monitor_selftest(ctx, dis)
+    hierarchy_tie(ctx, dis, 6 if quick else 40)
+    ctx.cov.notes.append("note (outside the property statement, no probe): SignalNamespace.get_name(ClockSignal/ResetSignal) raises "
+                         "AttributeError on the namespace convert() returns (ns.clock_domains is a _ClockDomainList without .get); the "
+                         "resolution is modelled and tied with dict-typed clock_domains")
+    ctx.cov.notes.append("note (outside the property statement, no probe): among objects with equal base names the _n suffixes follow "
+                         "the first-request order = iteration order of the Signal sets (a function of the absolute DUIDs); the same design "
+                         "in the same process context gives the same DUIDs and the same text")
     attr_differential(ctx, dis, 1500 if quick else 15000)
     nscd_differential(ctx, dis, 600 if quick else 6000)
     keyword_table_check(ctx, dis)
@@ -995,9 +1003,50 @@ def probe_keyword_blanks():
     return bool(bad), "signal named repeat/union/uwire emitted verbatim: %s" % (bad or "none")
 
 
+def probe_hierarchy_order():
+    """Deterministic witness: a module whose black boxes lie on heap addresses in an order different from their
+    creation order (forced and checked on the objects); the `[CELL]` lines must follow the creation (DUID) order, in
+    the explorer's text and in the hierarchy comment of the converted design."""
+    from litex.gen import LiteXContext
+    from litex.gen.fhdl import verilog
+    forced, cells, cd, text = E.hierarchy_case(random.Random(5))
+    want = [c for c, d in sorted(cd, key=lambda x: x[1])]
+    bad = cells != want
+    what = "module with 8 black boxes of different cells, heap-address order %s creation order: [CELL] lines %s (creation order %s)" % (
+        "forced different from" if forced else "NOT forced different from", cells, want)
+    if not forced:                      # fall back to the two-process comparison under fixed PYTHONHASHSEED values
+        errs, diffs = E.hierarchy_witness()
+        bad = bad or bool(diffs)
+        what += "; two-process comparison under PYTHONHASHSEED=%s: %s" % (E.HASHSEEDS, "differs" if diffs else "one text")
+    return bad, what
+
+
+def hierarchy_tie(ctx, dis, n):
+    """The `[CELL]` lines of the hierarchy comment (`sorted(specials, key=duid)`) against the Lean `duidOrder`."""
+    rng = random.Random(ctx.rng.randrange(1 << 30))
+    nforced = 0
+    for k in range(n):
+        res = guarded(ctx, dis, "hierarchy", {"hierarchy_case": k}, lambda: E.hierarchy_case(rng, ncells=rng.randint(3, 8)))
+        if res is None:
+            continue
+        forced, cells, cd, text = res
+        sh = cd[:]
+        rng.shuffle(sh)
+        out = ctx.lean.call("duidorder " + " ".join(str(d) for c, d in sh))
+        try:
+            model = [sh[int(i)][0] for i in out.split()]
+        except Exception:
+            model = None
+        if model != cells:
+            dis.append({"kind": "monitor", "case": "hierarchy", "payload": {"cells_with_duid": cd, "heap_order_forced_different": forced},
+                        "oracle": ["[CELL] lines of the hierarchy comment are not in DUID order", cells, model if model is not None else out]})
+        nforced += 1 if forced else 0
+    ctx.cov.add_cases("hierarchy comment [CELL] order vs duidOrder (heap-address order forced different from creation order)", n, nforced, False, mode="C")
+
+
 def probes(ctx):
     out = []
-    for fid, fn in ((FINDING_BLANKS, probe_keyword_blanks), (FINDING_SUFFIX, probe_suffix_collision)):
+    for fid, fn in ((FINDING_BLANKS, probe_keyword_blanks), (FINDING_SUFFIX, probe_suffix_collision), (FINDING_HIER, probe_hierarchy_order)):
         try:
             with L.time_limit(CASE_TIMEOUT * 2):
                 f, what = fn()
@@ -1065,7 +1114,7 @@ def search(ctx, disagreements, proof_info):
     disagreements = getattr(ctx, "c02_dis", None) or [getattr(d, "d", d) for d in disagreements]
     # 0. a reproducibility / text monitor already holds a concrete input (design + differing lines)
     for d in disagreements:
-        if d.get("kind") == "monitor" and d.get("case") in ("keywords", "reproducibility", "convert-text", "emitattrs", "nscd"):
+        if d.get("kind") == "monitor" and d.get("case") in ("keywords", "reproducibility", "convert-text", "emitattrs", "nscd", "hierarchy"):
             return {"case": d["case"], "input": d.get("payload"), "oracle_failures": [d.get("oracle")]}
     # 0'. the attribute printer disagrees with the sorted-emission model: is its text a function of the attribute set?
     acases = [d["payload"] for d in disagreements if d.get("kind") == "emitattrs"][:40]
@@ -1203,6 +1252,10 @@ def replay(ctx, payload):
         text, named = _convert_named([f["input"]["signal_name"]])
         bad = named[0][1] in L.IEEE_1364_2005
         print("replay: signal named %r is emitted as %r -> %s" % (f["input"]["signal_name"], named[0][1], "STILL FAILS" if bad else "passes"))
+        return 1 if bad else 0
+    if f.get("case") == "hierarchy":
+        bad, what = probe_hierarchy_order()
+        print("replay:", what, "-> STILL FAILS" if bad else "-> passes")
         return 1 if bad else 0
     if f.get("case") == "emitattrs":
         r = attr_repro_failure([f["input"]])
